@@ -129,6 +129,11 @@ func (fr *frame) get(key ssa.Value) value {
 	case *ssa.Const:
 		return constValue(key)
 	case *ssa.Global:
+		if ex := fr.i.ex; ex != nil && ex.S.NeedInit[key] {
+			// its initialiser lives in a package init the executor does not run:
+			// reading the zero value instead would silently change the program
+			unsupported("global %s is used but the initialiser of package %s is not executed", key.Name(), key.Pkg.Pkg.Path())
+		}
 		if r, ok := fr.i.globals[key]; ok {
 			return r
 		}
